@@ -664,6 +664,8 @@ impl<'b> Decoder<'b> {
 
     /// Get the byte at the current position.
     fn current(&self) -> Result<u8, Error> {
+        #[cfg(all(minicbor_verif, feature = "std"))]
+        verif::step();
         if let Some(b) = self.buf.get(self.pos) {
             return Ok(*b)
         }
@@ -672,6 +674,8 @@ impl<'b> Decoder<'b> {
 
     /// Consume and return the byte at the current position.
     fn read(&mut self) -> Result<u8, Error> {
+        #[cfg(all(minicbor_verif, feature = "std"))]
+        verif::step();
         if let Some(b) = self.buf.get(self.pos) {
             self.pos += 1;
             return Ok(*b)
@@ -985,4 +989,41 @@ where
     A: TryInto<B> + Into<u64> + Copy
 {
     val.try_into().map_err(|_| Error::overflow(val.into()).at(pos).with_message(msg))
+}
+
+/// Verification hook (only with `--cfg minicbor_verif`): a thread-local step
+/// counter bumped on every decoder byte access, with an optional budget that
+/// turns runaway loops into a deterministic panic the harness can catch.
+#[cfg(all(minicbor_verif, feature = "std"))]
+#[doc(hidden)]
+pub mod verif {
+    use std::cell::Cell;
+
+    pub const BUDGET_EXCEEDED: &str = "minicbor_verif: step budget exceeded";
+
+    std::thread_local! {
+        static STEPS: Cell<u64> = const { Cell::new(0) };
+        static BUDGET: Cell<u64> = const { Cell::new(u64::MAX) };
+    }
+
+    /// Reset the step counter and arm a budget (`u64::MAX` = unlimited).
+    pub fn arm(budget: u64) {
+        STEPS.with(|s| s.set(0));
+        BUDGET.with(|b| b.set(budget));
+    }
+
+    /// Disarm the budget and return the number of steps counted since `arm`.
+    pub fn disarm() -> u64 {
+        BUDGET.with(|b| b.set(u64::MAX));
+        STEPS.with(|s| s.get())
+    }
+
+    #[inline]
+    pub(super) fn step() {
+        let n = STEPS.with(|s| { let n = s.get().wrapping_add(1); s.set(n); n });
+        if n > BUDGET.with(|b| b.get()) {
+            BUDGET.with(|b| b.set(u64::MAX));
+            panic!("{}", BUDGET_EXCEEDED)
+        }
+    }
 }
